@@ -138,6 +138,9 @@ inline Rat abs (const Rat& x) { return x.v < 0 ? -x : x; }
 inline double fabs (const std::complex<Rat>& z)
 { double a = z.real().v.get_d(), b = z.imag().v.get_d(); return a*a + b*b; }
 
+// modulus of an exact complex rational (throws when irrational); non-template overloads are preferred to std's templates
+namespace std { inline Rat abs (const complex<Rat>& z) { return sqrt (z.real()*z.real() + z.imag()*z.imag()); } }
+
 // principal square root of an exact complex rational (throws when irrational)
 inline std::complex<Rat> sqrt (const std::complex<Rat>& z)
 {
